@@ -318,9 +318,23 @@ Definition derive_step (fg : string * string) (d : descr) : perr + descr :=
   | _ => inr d
   end.
 
+(* the body of _verify with the use_mpi block where the source has it *)
 Definition vfy (T : table) (d : descr) : perr + descr :=
   let d1 := set_mode T d in
-  if rules_ok T d1 then derive_step (t_derive T) (alias_pass T d1) else inl ValueError.
+  match t_derive_pos T with
+  | None =>
+      match derive_step (t_derive T) d1 with
+      | inl e => inl e
+      | inr d2 => if rules_ok T d2 then inr (alias_pass T d2) else inl ValueError
+      end
+  | Some n =>
+      if rules_ok T d1
+      then match derive_step (t_derive T) (fold_left alias_step (firstn n (t_aliases T)) d1) with
+           | inl e => inl e
+           | inr d3 => inr (fold_left alias_step (skipn n (t_aliases T)) d3)
+           end
+      else inl ValueError
+  end.
 
 (* TypedDict.verify *)
 Definition verify (T : table) (d : descr) : perr + descr :=
@@ -408,6 +422,9 @@ Definition wf_table (T : table) : bool :=
   && ftype_is TInt (lookup g sch)
   && negb (String.eqb f mode_key) && negb (mem_str f (rule_fields T)) && negb (mem_str mode_key (rule_fields T))
   && negb (String.eqb (t_mode_dflt T) EmptyString)
+  (* the derived flag is computed after every deprecated name has been mapped *)
+  && match t_derive_pos T with Some n => Nat.eqb n (List.length (t_aliases T)) | None => false end
+  && negb (mem_str g srcs)
   && nodup_str (map fst sch) && nodup_str (map fst (t_defaults T))
   && forallb (fun k => mem_str k (map fst sch)) (map fst (t_defaults T))
   && forallb (fun k => mem_str k (map fst (t_defaults T))) (fixed ++ srcs ++ dsts).
